@@ -382,6 +382,8 @@ class FakeRowTable:
         sel = [r for r in self.rows if floor <= r[6] and r[6] < ceiling]
         if len(sel) == 2 and (sel[1][6] < sel[0][6] or (sel[1][6] == sel[0][6] and sel[1][3] > sel[0][3])):
             sel = [sel[1], sel[0]]
+        elif len(sel) > 2:          # (native runs of the model-vs-sqlite differential only)
+            sel = sorted(sel, key=lambda r: (r[6], -r[3]))
         return [dict(txid=r[0], txoid=r[1], raw=r[2], height=r[3], nout=r[4], is_verified=r[5], amount=r[6]) for r in sel]
 
     def executemany(self, sql, params):
@@ -487,6 +489,7 @@ make_chooser_proof(2)
 # ------------------------------------------------------------------ bounded: the real ledger, database and accounts
 
 SEED = "carbon smart garage balance margin twelve chest sword toast envelope bottom stomach absent"
+SEED2 = "abandon abandon abandon abandon abandon abandon abandon abandon abandon abandon abandon about"
 
 
 async def real_wallet(strategy, amounts_confirmed, amounts_unconfirmed, fee_per_byte=50, second_account=False):
@@ -504,6 +507,7 @@ async def real_wallet(strategy, amounts_confirmed, amounts_unconfirmed, fee_per_
     addresses = await account.ensure_address_gap()
     hashes = [ledger.address_to_hash160(a) for a in addresses]
     k = 0
+    fundings = []
     for verified, amounts in ((True, amounts_confirmed), (False, amounts_unconfirmed)):
         if not amounts:
             continue
@@ -517,12 +521,73 @@ async def real_wallet(strategy, amounts_confirmed, amounts_unconfirmed, fee_per_
         for u in utxos:
             await ledger.db.save_transaction_io(funding, ledger.hash160_to_address(u.script.values['pubkey_hash']),
                                                 u.script.values['pubkey_hash'], '')
+        fundings.append((funding, utxos))
+    ledger.verif_fundings = fundings
     return d, ledger, account
+
+
+async def resave_fundings(ledger):
+    """what wallet sync does when a transaction it already knows is seen again (confirmed, or moved to another height): the
+    transaction and its outputs are saved again"""
+    for funding, utxos in ledger.verif_fundings:
+        funding.height = funding.height + 1 if funding.height > 0 else 6
+        funding.is_verified = True
+        for u in utxos:
+            await ledger.db.save_transaction_io(funding, ledger.hash160_to_address(u.script.values['pubkey_hash']),
+                                                u.script.values['pubkey_hash'], '')
 
 
 async def reserved_ids(ledger):
     rows = await ledger.db.db.execute_fetchall("select txoid from txo where is_reserved = 1")
     return sorted(r[0] if not isinstance(r, dict) else r['txoid'] for r in rows)
+
+
+@proof("C03", "chooser.table-model-vs-sqlite")
+class ChooserTableModelVsSqlite:
+    """BOUNDED differential for the trusted table model of the chooser proofs: the real get_and_reserve_spendable_utxos run inside a
+    real sqlite transaction over a real wallet database selects exactly the outputs the same function selects over FakeRowTable fed
+    with the same rows - with amounts placed ON, just below and just above the band borders 10^2, 10^4, 10^6, 10^8 the search crosses"""
+    bounded_only = True
+    note = "60 wallets of 3-5 outputs on/around band borders x 6 targets"
+    inputs = dict(case=TInt())
+
+    def run(case):
+        import random
+        import shutil
+        from lbry.wallet.database import get_and_reserve_spendable_utxos
+        r = random.Random(case)
+        borders = [10 ** 2, 10 ** 4, 10 ** 6, 10 ** 8, 10 ** 10]
+        pool = [b + d for b in borders for d in (-1, 0, 0, 1)] + [5 * 10 ** 5, 5 * 10 ** 7, 2 * 10 ** 8, 7400, 7401]
+        amounts = [r.choice(pool) for _ in range(r.randrange(3, 6))]
+        targets = [1, 7400, 10 ** 6, 12_550_000, 10 ** 8, 250_000_000]
+
+        async def go():
+            d, ledger, account = await real_wallet('sqlite', amounts, [], 50)
+            try:
+                problems = []
+                rows = await ledger.db.db.execute_fetchall(
+                    "SELECT tx.txid, txo.txoid, tx.raw, tx.height, txo.position, tx.is_verified, txo.amount FROM txo JOIN tx USING (txid)")
+                rows = [tuple(row.values()) if isinstance(row, dict) else tuple(row) for row in rows]
+                rows = [(a, b, bytes(c), h, n, bool(v), amt) for a, b, c, h, n, v, amt in rows]
+                for target in targets:
+                    real = await ledger.db.db.run(get_and_reserve_spendable_utxos, (account.public_key.address,), target, 1, 50, False, False)
+                    model = get_and_reserve_spendable_utxos(FakeRowTable(rows), ('a',), target, 1, 50, False, False)
+                    picked_real = sorted(n for key in real for n in real[key])
+                    picked_model = sorted(n for key in model for n in model[key])
+                    if picked_real != picked_model:
+                        problems.append(f"amounts {amounts} target {target}: sqlite picks positions {picked_real}, the table model {picked_model}")
+                return problems[:2]
+            finally:
+                await ledger.db.close()
+                shutil.rmtree(d, ignore_errors=True)
+        return asyncio.run(go())
+
+    def ensures_same_selection(result):
+        return result == []
+
+    def samples():
+        for case in range(60):
+            yield dict(case=case)
 
 
 @proof("C03", "real-ledger.funding")
@@ -698,7 +763,8 @@ class RealLedgerConcurrent:
     offered to others, a build that fails (also at signing, with a locked account) leaves nothing reserved, and after every build
     was released or failed every output is available again"""
     bounded_only = True
-    note = "7 strategies x {confirmed, mixed, unconfirmed-only} UTXO sets x {2, 3, 8} concurrent builds x {normal, locked account}"
+    note = ("7 strategies x {confirmed, mixed, unconfirmed-only} UTXO sets x {2, 3, 8} concurrent builds x {normal, locked account}; funding "
+            "accounts named three ways; a sync re-save of the funding transactions while outputs are held, then two more builds")
     inputs = dict(case=TInt())
 
     def run(case):
@@ -714,10 +780,17 @@ class RealLedgerConcurrent:
             d, ledger, account = await real_wallet(strategy, conf, unconf)
             try:
                 problems = []
+                # the builds name their funding accounts in different ways (a second, empty account; other order; the first alone):
+                # whatever serialises coin selection must not depend on how the caller wrote the list
+                from lbry.wallet import Account
+                other = Account.from_dict(ledger, account.wallet, {"seed": SEED2})
+                await other.ensure_address_gap()
+                funding_lists = [[account], [account, other], [other, account]]
                 if locked:
                     account.encrypt('pw')
+                    other.encrypt('pw')
                 results = await asyncio.gather(*[
-                    Transaction.create([], [Output.pay_pubkey_hash(3 * COIN, bytes([i + 1]) * 20)], [account], account)
+                    Transaction.create([], [Output.pay_pubkey_hash(3 * COIN, bytes([i + 1]) * 20)], funding_lists[(i + case) % 3], account)
                     for i in range(builders)], return_exceptions=True)
                 txs = [r for r in results if isinstance(r, Transaction)]
                 seen = []
@@ -733,6 +806,20 @@ class RealLedgerConcurrent:
                     problems.append('a held output is offered as spendable')
                 if locked and txs:
                     problems.append('a build succeeded on a locked account')
+                # wallet sync sees the funding transactions again (confirmed / moved to another height) while the builds hold their
+                # outputs: the outputs stay held, and builds started afterwards do not get them
+                await resave_fundings(ledger)
+                if sorted(seen) != await reserved_ids(ledger):
+                    problems.append('an output held by a build is no longer reserved after its transaction was saved again by sync')
+                later = await asyncio.gather(*[
+                    Transaction.create([], [Output.pay_pubkey_hash(3 * COIN, bytes([i + 101]) * 20)], [account], account)
+                    for i in range(2)], return_exceptions=True)
+                for tx in [r for r in later if isinstance(r, Transaction)]:
+                    for i in tx.inputs:
+                        if i.txo_ref.id in seen:
+                            problems.append('a build started after a sync re-save selected an output another build still holds')
+                        seen.append(i.txo_ref.id)
+                    txs.append(tx)
                 for tx in txs:
                     await ledger.release_tx(tx)
                 if await reserved_ids(ledger):
